@@ -90,4 +90,7 @@ def templates(cfg):
     # string keys and string min/max
     T("str_key", lambda p, t: t >> p.group_by(t.s) >> p.summarize(n=p.count(), s2=t.b.sum()), S_STR, alphabet="ab", nmax=3)
     T("str_minmax", lambda p, t: t >> p.summarize(lo=t.s.min(), hi=t.s.max()), S_STR, alphabet="ab", nmax=3)
+    from . import temporal
+
+    out += temporal.templates_for("C04", cfg)
     return out
